@@ -304,11 +304,11 @@ func c07b(c *Ctx) {
 	// the two sites
 	var cur string
 	nSites := 0
-	for _, ws := range writeSites(fn) {
+	for _, ws := range c.sitesOf(fn) {
 		if !ws.konst || (ws.format != `\n` && ws.format != `\l`) {
 			continue
 		}
-		must := c.mustLits(fn, ws.call.Block())
+		must := siteMust(ws)
 		pos := c.W.Pos(ws.call.Pos())
 		// which predicate guards this site
 		var lit string
